@@ -332,6 +332,10 @@ def get(tier, seed):
     return stage.cached("lr-" + tier, {"tier": tier, "seed": seed, "params": PARAMS[tier]}, lambda: build(tier, seed))
 
 
+def ensure(tier, seed):
+    stage.ensure("lr-" + tier, {"tier": tier, "seed": seed, "params": PARAMS[tier]}, lambda: build(tier, seed))
+
+
 def judge_replay(rc):
     """Re-run one recorded LR case through the real code and TLC."""
     from . import real
